@@ -43,6 +43,7 @@ def check(ctx):
     C.MEMBER_OBJECTS = True
     try:
         r1(ctx, cf)
+        r1_result_order(ctx, cf)
         r2(ctx, cf)
         r3(ctx, cf)
         r4(ctx, cf)
@@ -90,6 +91,28 @@ def _container_loop(n):
     if not m or _n(C.text(inc)).strip("()") not in ("++" + var, var + "++", var + "++0"):
         return None
     return var, m.group(1), "index"
+
+
+def r1_result_order(ctx, cf):
+    """compute_neighbors reports the hits in the order of the haystack: the vector that is returned only ever grows by push_back inside the loop over
+    the haystack; nothing reorders or thins it afterwards (sort / unique / erase / reverse ...)."""
+    fn = cf.function(NB, "_compute_neighbors")
+    rets = [n for n in C.walk(fn) if n["kind"] == "ReturnStmt" and C.kids(n)]
+    names = {x_.get("referencedDecl", {}).get("name") for r_ in rets for x_ in C.walk(r_) if x_["kind"] == "DeclRefExpr" and x_.get("referencedDecl", {}).get("kind") == "VarDecl"} - {None}
+    pushes = [n for n in C.walk(fn) if n["kind"] == "CXXMemberCallExpr" and C.callee_name(n) == "push_back" and C.root_var(C.kids(C.strip(C.kids(n)[0]))[0])[0] in names]
+    if len(names) != 1 or not pushes:
+        raise AnalysisError("_compute_neighbors: the result vector (returned, filled by push_back) was not recognised")
+    res = next(iter(names))
+    REORDER = {"sort", "stable_sort", "unique", "reverse", "rotate", "shuffle", "random_shuffle", "partition", "stable_partition", "nth_element", "partial_sort", "remove", "remove_if"}
+    bad = []
+    for n in C.walk(fn):
+        if n["kind"] in ("CallExpr", "CXXMemberCallExpr"):
+            cn = (C.callee_name(n) or "").split("::")[-1]
+            touches = any(x_["kind"] == "DeclRefExpr" and x_.get("referencedDecl", {}).get("name") == res for x_ in C.walk(n))
+            if touches and (cn in REORDER or (n["kind"] == "CXXMemberCallExpr" and cn in ("erase", "insert", "swap", "assign", "clear", "pop_back", "resize"))):
+                bad.append((cn, C.line(n)))
+    ctx.decide(not bad, "C10-R1", C.line(fn), NB, "_compute_neighbors", "the hits are reported in the order of the haystack: `%s` only grows by push_back (%d site(s))" % (res, len(pushes)), "",
+               "`%s` is passed through %s before it is returned: the neighbours come back in another order than the haystack's (or thinned)" % (res, ", ".join("%s (line %s)" % b_ for b_ in bad[:3])))
 
 
 def r1(ctx, cf):
